@@ -124,7 +124,8 @@ impl ConsumerGroup {
     pub fn new(name: String, stream_id: StreamId) -> Self {
         ConsumerGroup {
             name: name.clone(),
-            last_delivered_id: Arc::new(Mutex::new(StreamId::new(0, 0))),
+            // delivery through ">" starts after the requested position
+            last_delivered_id: Arc::new(Mutex::new(stream_id)),
             stream_id,
             pending: Arc::new(RwLock::new(PendingEntryList::new())),
             consumers: Arc::new(RwLock::new(HashMap::new())),
